@@ -2,6 +2,7 @@ package jschema
 
 import (
 	stdBytes "bytes"
+	"encoding/json"
 	"fmt"
 
 	"github.com/jsightapi/jsight-schema-go-library/bytes"
@@ -91,7 +92,12 @@ func (b *exampleBuilder) buildExampleForObjectNode(node *internalSchema.ObjectNo
 
 func (b *exampleBuilder) buildObjectKey(k internalSchema.ObjectNodeKey) ([]byte, error) {
 	if !k.IsShortcut {
-		return []byte(k.Key), nil
+		// The key is stored decoded: escape it again for the JSON output.
+		q, err := json.Marshal(k.Key)
+		if err != nil {
+			return nil, err
+		}
+		return q[1 : len(q)-1], nil
 	}
 
 	typ, ok := b.types[k.Key]
